@@ -3,6 +3,7 @@ mod chain;
 mod api;
 mod c03;
 mod c15;
+mod casrestamp;
 mod conc;
 mod d9;
 mod ebr;
@@ -225,6 +226,10 @@ fn main() {
         "api" => {
             let (checks, _p, fails) = api::run(&out, seed, thorough);
             println!("api: property_checks={} property_failures={}", checks, fails);
+        }
+        "cas-restamp" => {
+            let (checks, _p, fails) = casrestamp::run(&out, seed, thorough);
+            println!("cas-restamp: property_checks={} property_failures={}", checks, fails);
         }
         "once" => {
             let n: usize = arg(&args, "--cases").and_then(|s| s.parse().ok()).unwrap_or(0);
